@@ -102,6 +102,18 @@ fn tmpl_one(req: &Value) -> Value {
                 "globals" => g.export_globals().map_err(|e| e.message),
                 "scripts" => g.export_all_scripts().map_err(|e| e.message),
                 "stringify" => g.stringify_tmpl(main).ok_or("no such template".to_string()),
+                "direct_dependencies" | "script_dependencies" => {
+                    let r = if w == "direct_dependencies" {
+                        g.direct_dependencies(main).map(|x| x.collect::<Vec<String>>()).map_err(|e| e.message)
+                    } else {
+                        g.script_dependencies(main).map(|x| x.collect::<Vec<String>>()).map_err(|e| e.message)
+                    };
+                    out[w] = match r {
+                        Ok(v) => json!(v),
+                        Err(e) => json!({ "error": e }),
+                    };
+                    continue;
+                }
                 "text_locations" => {
                     let src = req["files"].as_array().and_then(|fs| fs.iter().find(|f| f[0].as_str() == Some(main))).and_then(|f| f[1].as_str()).unwrap_or("");
                     out[w] = json!(tc::verif::text_locations(src));
